@@ -111,3 +111,28 @@ pub fn fragment_entry<const N: usize>() {
     let r = erltf::decoder::decode_fragment_cont(&b);
     vk::leak(r);
 }
+
+/// NEWER_REFERENCE_EXT (90) / NEW_REFERENCE_EXT (114) with a well-formed node and creation, the given
+/// id-word count and `have` symbolic id words behind it
+pub fn reference_words(tag: u8, count: u16, have: usize, which: u8) {
+    let mut o = Out::new();
+    o.push(131);
+    o.push(tag);
+    o.push((count >> 8) as u8);
+    o.push(count as u8);
+    o.push(119);
+    o.push(1);
+    o.push(b'n');
+    let cw = if tag == 90 { 4 } else { 1 };
+    let mut i = 0;
+    while i < cw {
+        o.push(vk::u8());
+        i += 1;
+    }
+    i = 0;
+    while i < 4 * have {
+        o.push(vk::u8());
+        i += 1;
+    }
+    run(o.bytes(), which);
+}
